@@ -12,7 +12,7 @@ import (
 // finders, the markup parsers and the two-pass logic. docspec = template id; the
 // members inside a template rotate with the PRNG of the docGen.
 
-const nRichDocs = 25
+const nRichDocs = 26
 
 func pagerHTML(g *docGen, style string, n, k int) string {
 	var sb strings.Builder
@@ -115,7 +115,10 @@ func richDoc(id int, g *docGen) string {
 		body.WriteString(schemaBody(g) + "<div>" + story(3) + "</div>")
 	case 6: // images: lead image candidates, srcset, lazy
 		body.WriteString(`<img src="/i/m1.png"><figure><img src="/i/m2.png" srcset="/i/m2-2x.png 2x"><figcaption>` + g.words(4) + `</figcaption></figure>` +
-			"<div>" + story(1) + `<img src="/i/m3.png" srcset="/i/m3-a.png 480w, /i/m3-b.png 800w">` + story(2) + `<span class="lazy-image-placeholder" data-src="/i/m4.png"></span></div>`)
+			"<div>" + story(1) + `<img src="/i/m3.png" srcset="/i/m3-a.png 480w, /i/m3-b.png 800w">` + story(2) + `<span class="lazy-image-placeholder" data-src="/i/m4.png"></span>` +
+			// several lazy-loading attributes on one image: the first of the documented order wins, every time
+			`<img data-url="/i/m5c.png" data-original="/i/m5b.png" data-src="/i/m5a.png" src="data:image/gif;base64,R0lGOD">` +
+			`<img datasrc="/i/m6b.png" data-url="/i/m6c.png" datasrcset="/i/m6e.png 2x" data-srcset="/i/m6d.png 2x">` + story(1) + `</div>`)
 	case 7: // tables: nested, roles, editable
 		body.WriteString("<div>" + story(2) + `<table role="grid"><tr><td>` + g.words(2) + `</td><td>` + g.words(2) + `</td></tr><tr><td>` + g.words(2) + `</td><td><table><tr><td>` + g.words(2) + `</td></tr></table></td></tr></table>` +
 			`<div contenteditable="true"><table><caption>` + g.words(2) + `</caption><tr><td>a</td><td>b</td></tr><tr><td>c</td><td>d</td></tr></table></div>` + story(1) + "</div>")
@@ -217,6 +220,23 @@ func richDoc(id int, g *docGen) string {
 			sb.WriteString(fmt.Sprintf(`<a href="%s">%d</a> `, h, i+1))
 		}
 		body.WriteString("<div>" + story(3) + "</div><div>" + sb.String() + `<a href="` + set[len(set)-1] + `">Next</a></div>`)
+	case 24: // a pager whose numbers fall into two runs of equal length (1 2 3 ... 8 9 10)
+		lo := 1 + r.Intn(2)
+		var sb strings.Builder
+		for i := 0; i < 3; i++ {
+			n := lo + i
+			if i == 1 {
+				sb.WriteString(fmt.Sprintf("%d ", n))
+			} else {
+				sb.WriteString(fmt.Sprintf(`<a href="/story/view?pg=%d">%d</a> `, n, n))
+			}
+		}
+		sb.WriteString("&hellip; ")
+		for i := 0; i < 3; i++ {
+			n := lo + 7 + i
+			sb.WriteString(fmt.Sprintf(`<a href="/story/view?pg=%d">%d</a> `, n, n))
+		}
+		body.WriteString("<div>" + story(3) + "</div><div>" + sb.String() + "</div>")
 	default: // a random abstract document through the doc-family concretiser
 		forest := randomForest(r, 14)
 		return g.page(forest, docPlaces[r.Intn(len(docPlaces))])
